@@ -690,6 +690,7 @@ def run(ctx):
         if {"f", "temp"} & kinds and len(kinds) >= 3:
             nontriv.add(repr(p))
     specv = dedup(specv)
+    svb = bash_second_opinion(ctx, progs, rendered, impl, 150 if ctx.quick else 4000)
     # extraction cross-check
     idx = ctx.rng.sample(range(len(progs)), 24)
     ce = ctx.coq_eval("c09sh", [rendered[i][1] for i in idx])
@@ -716,6 +717,7 @@ def run(ctx):
         "extraction_crosscheck": {"cases": len(idx) + len(idx2), "agree": len(idx) + len(idx2) - len(xbad) - len(xbad2)},
         "model_mismatches": mism,
         "spec_violations": specv,
+        "spec_vs_bash": svb,
     }
 
 
@@ -774,6 +776,110 @@ WITNESSES = [
     # nested temporary assignment of the same name
     [("C", [("va", None, ("s", "1"), False)], ("f", [P("sb9004"), ("C", [("va", None, ("s", "2"), False)], ("b", (":",))), P("sa9004")]))],
 ]
+
+
+# ------------------------------------------------------------------ bash as a second opinion
+
+def bash_script(h):
+    """the same program for /usr/bin/bash: probes become no-ops, the global view is printed after every step"""
+    setup, steps = h[1], h[2:]
+    out = ["__probe() { :; }", "__T() { declare -p va 2>/dev/null || echo 'none va'; declare -p vb 2>/dev/null || echo 'none vb'; echo @@T; }",
+           setup]
+    for st in steps:
+        out.append(st)
+        out.append("__T")
+    return "\n".join(out) + "\n"
+
+
+def canon_decl(line):
+    """`declare -ai va=([0]="1")` -> (flags, value) ; value = str | tuple of (k,v) | None"""
+    m = re.match(r"declare -([-A-Za-z]+) (v[ab])(?:=(.*))?$", line)
+    if not m:
+        return None
+    flags = "".join(sorted(set(m.group(1)) & set("aAilrux")))
+    v = m.group(3)
+    if v is None:
+        return (flags, None)
+    if v.startswith("("):
+        items = tuple(re.findall(r"\[([^\]]*)\]=\"((?:[^\"\\\\]|\\\\.)*)\"", v))
+        return (flags, tuple((k.strip('"'), x) for k, x in items))
+    return (flags, v[1:-1] if len(v) >= 2 and v[0] == '"' else v)
+
+
+def canon_binding(b):
+    if b is None:
+        return None
+    attrs, vk, items = b
+    fl = set(attrs) & set("ilrux")
+    if vk in ("I", "Ua"):
+        fl.add("a")
+    if vk in ("A", "UA"):
+        fl.add("A")
+    flags = "".join(sorted(fl))
+    if vk.startswith("U"):
+        return (flags, None)
+    if vk == "S":
+        return (flags, items[0][1])
+    return (flags, tuple(items))
+
+
+def bash_second_opinion(ctx, progs, rendered, impl, limit):
+    """per-step comparison of the global view with bash; counts only (bash-parity of every writer is not this check's claim)"""
+    import subprocess, concurrent.futures
+    idx = list(range(len(progs)))[:limit]
+
+    def run(i):
+        try:
+            p = subprocess.run(["/usr/bin/bash", "--norc", "--noprofile", "-c", bash_script(rendered[i][0])], stdin=subprocess.DEVNULL,
+                               stdout=subprocess.PIPE, stderr=subprocess.DEVNULL, timeout=30, env={"PATH": "/usr/bin:/bin"})
+            return p.stdout.decode("utf-8", "replace")
+        except subprocess.TimeoutExpired:
+            return ""
+    with concurrent.futures.ThreadPoolExecutor(max_workers=8) as ex:
+        outs = list(ex.map(run, idx))
+    stat = {"programs": 0, "steps_compared": 0, "steps_agree": 0, "programs_agree_everywhere": 0, "child_envs_compared": 0,
+            "child_envs_agree": 0}
+    examples = []
+    for i, out in zip(idx, outs):
+        if impl[i].startswith(("PANIC", "DIED", "TIMEOUT")):
+            continue
+        recs = parse_records(core.dec_line(impl[i]))
+        if recs is None:
+            continue
+        chunks = out.split("@@T\n")[:-1]
+        if len(chunks) != len(recs):
+            continue
+        stat["programs"] += 1
+        allok = True
+        for k, (ch, (obs, st)) in enumerate(zip(chunks, recs)):
+            lines = ch.split("\n")
+            bash_view = {}
+            envs, cur = [], []
+            for l in lines:
+                if l == "@@E":
+                    envs.append(sorted(x for x in cur if x.split("=")[0] in NAMES)); cur = []
+                elif l.startswith("declare "):
+                    c = canon_decl(l)
+                    if c:
+                        bash_view[l.split(" ")[2].split("=")[0]] = c
+                elif re.match(r"[A-Za-z_][A-Za-z0-9_]*=", l):
+                    cur.append(l)
+            g = st[0][1] if st else {}
+            same = all(canon_binding(g.get(n)) == bash_view.get(n) for n in NAMES)
+            stat["steps_compared"] += 1
+            stat["steps_agree"] += 1 if same else 0
+            benv = [sorted("%s=%s" % kv for kv in o[1]) for o in obs if o[0] == "E"]
+            for a, b in zip(benv, envs):
+                stat["child_envs_compared"] += 1
+                stat["child_envs_agree"] += 1 if a == b else 0
+            if not same:
+                allok = False
+                if len(examples) < 5:
+                    examples.append({"step": rendered[i][0][2 + k], "brush": {n: canon_binding(g.get(n)) for n in NAMES},
+                                     "bash": {n: bash_view.get(n) for n in NAMES}})
+        stat["programs_agree_everywhere"] += 1 if allok else 0
+    stat["first_disagreements"] = examples
+    return stat
 
 
 def search(ctx, res):
